@@ -47,6 +47,8 @@ def gen_params(rng, idx, tier):
     if nt + nu < 2:
         nt = 2
     profile = rng.random() < 0.25
+    if profile and nt < 2:
+        nt = 2
     return {'t': rng.sample(['B', 'C', 'D', 'F', 'G'], nt),
             'u': None if (nu == 0 or profile) else rng.sample(['X', 'Y', 'Z'], nu),
             'u_file': rng.choice([None, 'u.data']) if nu and not profile else None,
@@ -486,6 +488,54 @@ def check_clean(acc, world, exp, tmpdir, model_fn):
         acc.oracle_fail('regenerates', inp, {'started': started, 'expected': want_started}, {'option': '-c'})
 
 
+class _ModelOnly(object):
+    """`Check.model` without a Check (worker processes)"""
+    pid = 'C14'
+    model = lib.Check.model
+
+
+def scenario_job(job):
+    """one scenario: all selections on both placements, crash runs, -c; returns an Acc"""
+    import random
+    (i, params, seed, tier, n_sel, scratch, tmp_same, tmp_shm) = job
+    quick = tier == 'quick'
+    rng = random.Random(seed * 7919 + i)
+    model = _ModelOnly().model
+    acc = dd.Acc()
+    my_same = os.path.join(tmp_same, 'j%d' % i)
+    my_shm = os.path.join(tmp_shm, 'j%d' % i)
+    os.makedirs(my_same, exist_ok=True)
+    os.makedirs(my_shm, exist_ok=True)
+    world = World(os.path.join(scratch, 'w%d' % i), params)
+    acc.count('scenario:%s:%d-runs' % ('profile' if params['profile'] else 'benchmark', len(world.keys)))
+    acc.count('file-bytes>8192' if max(len(t) for t in world.old.values()) > 8192 else 'file-bytes<=8192')
+    if world.problem:
+        acc.disagree('c14: base session did not run as assumed', {'params': params}, {'problem': world.problem}, None)
+        return acc
+    sels = gen_selections(rng, params, n_sel)
+    pending = []
+    for j, (exp, filters) in enumerate(sels):
+        for placement, tmpdir in (('same_fs', my_same), ('other_fs', my_shm)):
+            do_crash = (j in (1, 2)) if quick else (j < 6)
+            cp = crash_selector(tier, rng, exhaustive=not quick) if do_crash else None
+            obs = observe_selection(acc, world, exp, filters, tmpdir, placement, cp)
+            if obs is not None:
+                pending.append(obs)
+    all_ops = [op for o in pending for op in o['ops']]
+    all_ans = []
+    for k in range(0, len(all_ops), 40):
+        all_ans += model(all_ops[k:k + 40])
+    pos = 0
+    for o in pending:
+        n = len(o['ops'])
+        judge_selection(acc, world, o, all_ans[pos:pos + n])
+        pos += n
+    for exp in ([None, 'all'] + (['U'] if params['u'] else [])):
+        check_clean(acc, world, exp, my_same, model)
+    shutil.rmtree(world.scn.wd, ignore_errors=True)
+    return acc
+
+
 def crash_selector(tier, rng, exhaustive):
     def points(events):
         n = len(events)
@@ -566,34 +616,22 @@ def run(ck):
                     run_case_file(ck, acc, w, idx, tmp_same, tmp_shm)
                     acc.count('corpus:' + fn[:-5])
                     idx += 1
-        n_scn = 6 if quick else 24
+        n_scn = 6 if quick else 60
         n_sel = 9 if quick else 25
-        for i in range(n_scn):
-            params = gen_params(ck.rng, i, ck.tier)
-            world = World(os.path.join(ck.scratch, 'w%d' % i), params)
-            acc.count('scenario:%s:%d-runs' % ('profile' if params['profile'] else 'benchmark', len(world.keys)))
-            acc.count('file-bytes>8192' if max(len(t) for t in world.old.values()) > 8192 else 'file-bytes<=8192')
-            if world.problem:
-                acc.disagree('c14: base session did not run as assumed', {'params': params}, {'problem': world.problem}, None)
-                continue
-            sels = gen_selections(ck.rng, params, n_sel)
-            pending = []
-            for j, (exp, filters) in enumerate(sels):
-                for placement, tmpdir in (('same_fs', tmp_same), ('other_fs', tmp_shm)):
-                    do_crash = (j in (1, 2)) if quick else (j < 6)
-                    cp = crash_selector(ck.tier, ck.rng, exhaustive=not quick) if do_crash else None
-                    obs = observe_selection(acc, world, exp, filters, tmpdir, placement, cp)
-                    if obs is not None:
-                        pending.append(obs)
-            all_ops = [op for o in pending for op in o['ops']]
-            all_ans = ck.model(all_ops)
-            pos = 0
-            for o in pending:
-                n = len(o['ops'])
-                judge_selection(acc, world, o, all_ans[pos:pos + n])
-                pos += n
-            for exp in ([None, 'all'] + (['U'] if params['u'] else [])):
-                check_clean(acc, world, exp, tmp_same, ck.model)
+        jobs = [(i, gen_params(ck.rng, i, ck.tier), ck.seed, ck.tier, n_sel, ck.scratch, tmp_same, tmp_shm)
+                for i in range(n_scn)]
+        if quick:
+            for job in jobs:
+                scenario_job(job).merge_into(acc)
+        else:
+            # scenarios are independent: shard them over processes (each has its own work directory)
+            import multiprocessing
+            nproc = min(10, max(1, (os.cpu_count() or 2) - 2))
+            with multiprocessing.get_context('fork').Pool(nproc) as pool:
+                for a in pool.imap_unordered(scenario_job, jobs):
+                    a.merge_into(acc)
+            ck.notes.append('%d scenarios sharded over %d processes; a kill before every mutating call of the '
+                            'first 6 selections of each scenario on both temp placements' % (n_scn, nproc))
         ck.exhaustive = not quick
     finally:
         shutil.rmtree(tmp_shm, ignore_errors=True)
